@@ -576,7 +576,8 @@ MM("value-unassigned-when-conversion-off", "C02.R2", [(F, SMAP_HEAD, SMAP_HEAD_N
 MM("value-initialised-only-for-non-empty-records", "C02.R2", [(F, SMAP_HEAD, SMAP_HEAD_NOINIT + '            if setting.length:\n                val = setting.value\n')])
 # pointer records handled in a branch of their own, TYPE_NONE forgotten, on top of the hoisted-aliases shape
 MM("value-chain-misses-type-none-aliased", "C02.R2", _aliased(extra=[(F, SMAP_HEAD, SMAP_HEAD_NOINIT), (F, CONV_BLOCK, _chain(
-    '            elif not (parse or pretty) or setting.type == _TYPE_PTR:\n                val = setting.value\n').replace("SettingsType.TYPE_SHORT", "_TYPE_SHORT"))]))
+    '            elif not (parse or pretty) or setting.type == SettingsType.TYPE_PTR:\n                val = setting.value\n')
+    .replace("SettingsType.TYPE_SHORT", "_TYPE_SHORT").replace("SettingsType.TYPE_INT", "_TYPE_INT"))]))
 # the key is only computed for records with a known index (else the previous key is reused and the entry overwritten)
 MM("key-unassigned-for-unknown-index", "C02.R2", [(F, '            if index_type == "name":\n                key = setting.index.name or str(setting.index).replace(".", "_")\n',
                                                      '            if index_type == "name":\n                if setting.index.name:\n                    key = setting.index.name\n')])
@@ -602,7 +603,8 @@ TT("twin-eod-position-local", _eod(before_peek='        pos = fobj.tell()\n     
 TT("twin-eod-at-end", _eod(before_peek='        if fobj.tell() >= size:\n            break\n'))
 TT("twin-eod-give-back-by-peek-length", [(F, '            fobj.seek(-2, io.SEEK_CUR)\n', '            fobj.seek(-len(peek), io.SEEK_CUR)\n')])
 TT("twin-eod-short-peek-and-remaining", _eod(after_term='        if len(peek) < 2:\n            break\n        fobj.seek(-len(peek), io.SEEK_CUR)\n'
-                                                        '        if size - fobj.tell() < 6:\n            break\n        fobj.seek(2, io.SEEK_CUR)\n'))
+                                                        '        if size - fobj.tell() < 6:\n            break\n')
+   + [(F, '            fobj.seek(-2, io.SEEK_CUR)\n            setting = Setting(fobj)\n', '            setting = Setting(fobj)\n')])
 # wrong header size / test taken at another offset / a record type or an empty value treated as the end of the settings
 MM("eod-header-size-counts-value-bytes", "C02.R5", _eod(before_peek='        if size - fobj.tell() < 8:\n            break\n'))
 MM("eod-remaining-temp-after-peek-off-by-two", "C02.R5", _eod(after_term='        remaining = size - fobj.tell()\n        if remaining <= 4:\n            break\n'))
